@@ -612,6 +612,74 @@ func c08LaterExecutions(b *core.B) {
 	b.NonTrivialStr("stored blocks over several executions")
 }
 
+// c08BlockRunSeveralTimes: a helper of the caller's that runs its block once per pass (an
+// each-like helper). A break / continue that any pass runs into ends that pass there; the
+// helper goes on as it pleases, and when its call is done the loop around it breaks / continues,
+// whichever pass it was.
+func c08BlockRunSeveralTimes(b *core.B) {
+	for n := 1; n <= 3; n++ {
+		for X := 1; X <= 3; X++ {
+			for P := 0; P < n; P++ {
+				for _, act := range []string{"break", "continue"} {
+					for _, form := range []string{"tag", "own-tag", "via-cap"} {
+						ctl := fmt.Sprintf("<%% if (x == %d && pass == %d) { %s } %%>", X, P, act)
+						switch form {
+						case "own-tag":
+							ctl = fmt.Sprintf("<%% if (x == %d && pass == %d) { %%><%% %s %%><%% } %%>", X, P, act)
+						case "via-cap":
+							ctl = fmt.Sprintf("<%%= cap() { %%><%% if (x == %d && pass == %d) { %s } %%><%% } %%>", X, P, act)
+						}
+						src := fmt.Sprintf("<%%= for (x) in [1, 2, 3] { %%><%%= passes(%d) { %%>[<%%= x %%>.<%%= pass %%>%s]<%% } %%>|<%% } %%>", n, ctl)
+						if !b.Begin(src) {
+							continue
+						}
+						var want strings.Builder
+					loop:
+						for x := 1; x <= 3; x++ {
+							hit := false
+							for pass := 0; pass < n; pass++ {
+								fmt.Fprintf(&want, "[%d.%d", x, pass)
+								if x == X && pass == P {
+									hit = true
+									continue
+								}
+								want.WriteString("]")
+							}
+							if hit {
+								if act == "break" {
+									break loop
+								}
+								continue
+							}
+							want.WriteString("|")
+						}
+						ctx := c08Ctx()
+						ctx.Set("passes", func(n int, h plush.HelperContext) (template.HTML, error) {
+							out := ""
+							for pass := 0; pass < n; pass++ {
+								c := h.New()
+								c.Set("pass", pass)
+								s, err := h.BlockWith(c)
+								if err != nil {
+									return "", err
+								}
+								out += s
+							}
+							return template.HTML(out), nil
+						})
+						res := render(b, src, ctx)
+						b.NonTrivialStr(src)
+						b.Count("control-in-a-block-run-several-times:" + act + "/" + form)
+						if res.Pan == nil && (res.Err != nil || res.Out != want.String()) {
+							b.Violate("wrong-loop-output|block-run-several-times|"+act, fmt.Sprintf("%d passes, %s in pass %d of element %d: want %q, got %s", n, act, P, X, want.String(), res))
+						}
+					}
+				}
+			}
+		}
+	}
+}
+
 // c08OtherData: what a loop visits is what its iterable is worth in *this* execution. One
 // parsed template (and, with the cache on, one text) is executed with four sets of data in
 // turn; the iterables are written with literals that mention variables at every depth.
@@ -733,6 +801,7 @@ func c08Run(b *core.B) {
 		c08LaterExecutions(b)
 		c08NilElements(b)
 		c08OtherData(b)
+		c08BlockRunSeveralTimes(b)
 	}
 	r := b.Rng(1)
 	n := 120000
